@@ -20,6 +20,16 @@ Theorem C11_oracle_pairing_canonical : forall (p : Z) (M : dmatrix) (T : option 
 Proof. intros p M T n dim_max cols l R V Hp F D _ H1 H2. exact (certified_lows_canonical p D R V l Hp H1 H2). Qed.
 Print Assumptions C11_oracle_pairing_canonical.
 
+(* whenever the oracle answers, its matrix is the boundary matrix of an order of the simplices in which every face precedes its
+   cofaces (checked at run time by [faces_precede]) and the pairing has been certified *)
+Theorem C11_oracle_answers_are_certified : forall (p : Z) (M : dmatrix) (T : option Z) (n dim_max : nat) (l : list interval),
+  barcode p M T n dim_max = Some l ->
+  exists cols lw, boundary_matrix (filtration M T n dim_max) = Some cols /\
+    (forall j col r c, nth_error cols j = Some col -> In (r, c) col -> (r < j)%nat) /\
+    certified_lows p (dense_of_sparse (length (filtration M T n dim_max)) cols) = Some lw.
+Proof. exact barcode_some. Qed.
+Print Assumptions C11_oracle_answers_are_certified.
+
 (* the oracle on a concrete instance: the 4-cycle with diagonals of length 2, over Z_3: three finite bars and one infinite bar in
    dimension 0, one bar [1,2) in dimension 1 *)
 Example C11_oracle_example :
